@@ -77,6 +77,8 @@ type Term struct {
 	big  *big.Int // constant for w>64
 	id   int
 	size int // dag-size estimate (saturating)
+	k0   uint64 // bits known to be 0 (w <= 64)
+	k1   uint64 // bits known to be 1 (w <= 64)
 }
 
 func (t *Term) IsConst() bool { return t.op == OpConst }
@@ -142,8 +144,94 @@ func (tb *TB) mk(t *Term) *Term {
 			t.size = 1 << 30
 		}
 	}
+	tb.knownBits(t)
 	tb.tab[k] = t
 	return t
+}
+
+// knownBits computes the bits of t that are syntactically determined (w <= 64).
+func (tb *TB) knownBits(t *Term) {
+	if t.w == 0 || t.w > 64 {
+		return
+	}
+	m := mask(t.w)
+	switch t.op {
+	case OpConst:
+		t.k1, t.k0 = t.v, ^t.v&m
+	case OpBAnd:
+		a, b := t.args[0], t.args[1]
+		t.k0, t.k1 = a.k0|b.k0, a.k1&b.k1
+	case OpBOr:
+		a, b := t.args[0], t.args[1]
+		t.k1, t.k0 = a.k1|b.k1, a.k0&b.k0
+	case OpBXor:
+		a, b := t.args[0], t.args[1]
+		known := (a.k0 | a.k1) & (b.k0 | b.k1)
+		v := (a.k1 ^ b.k1) & known
+		t.k1, t.k0 = v, known&^v
+	case OpBNot:
+		t.k0, t.k1 = t.args[0].k1, t.args[0].k0
+	case OpShl:
+		a, c := t.args[0], t.args[1]
+		if c.IsConst() && c.v < uint64(t.w) {
+			t.k1 = (a.k1 << c.v) & m
+			t.k0 = ((a.k0 << c.v) | (uint64(1)<<c.v - 1)) & m
+		}
+	case OpLShr:
+		a, c := t.args[0], t.args[1]
+		if c.IsConst() && c.v < uint64(t.w) {
+			t.k1 = a.k1 >> c.v
+			t.k0 = (a.k0 >> c.v) | (m &^ (m >> c.v))
+		}
+	case OpZExt:
+		a := t.args[0]
+		t.k1 = a.k1
+		t.k0 = a.k0 | (m &^ mask(a.w))
+	case OpSExt:
+		a := t.args[0]
+		t.k1, t.k0 = a.k1, a.k0
+		hi := m &^ mask(a.w)
+		if a.k1>>(uint(a.w)-1)&1 == 1 {
+			t.k1 |= hi
+		} else if a.k0>>(uint(a.w)-1)&1 == 1 {
+			t.k0 |= hi
+		}
+	case OpExtract:
+		a := t.args[0]
+		if a.w <= 64 {
+			t.k1 = (a.k1 >> uint(t.p)) & m
+			t.k0 = (a.k0 >> uint(t.p)) & m
+		}
+	case OpConcat:
+		hi, lo := t.args[0], t.args[1]
+		t.k1 = (hi.k1<<uint(lo.w) | lo.k1) & m
+		t.k0 = (hi.k0<<uint(lo.w) | lo.k0) & m
+	case OpIte:
+		a, b := t.args[1], t.args[2]
+		t.k0, t.k1 = a.k0&b.k0, a.k1&b.k1
+	case OpAnd, OpOr, OpNot, OpEq:
+	case OpAdd:
+		// low bits: if the low k bits of both operands are known, so are the low k bits of the sum
+		a, b := t.args[0], t.args[1]
+		ka, kb := a.k0|a.k1, b.k0|b.k1
+		n := 0
+		for n < t.w && (ka>>uint(n))&1 == 1 && (kb>>uint(n))&1 == 1 {
+			n++
+		}
+		if n > 0 {
+			lm := mask(n)
+			v := (a.k1 + b.k1) & lm
+			t.k1, t.k0 = v, lm&^v
+		}
+	}
+}
+
+// allKnown returns the constant value of t if every bit is known.
+func (tb *TB) allKnown(t *Term) (*Term, bool) {
+	if t.w > 0 && t.w <= 64 && t.op != OpConst && (t.k0|t.k1) == mask(t.w) {
+		return tb.BV(t.w, t.k1), true
+	}
+	return nil, false
 }
 
 func mask(w int) uint64 {
@@ -296,6 +384,9 @@ func (tb *TB) Eq(a, b *Term) *Term {
 			return tb.Not(a)
 		}
 	}
+	if a.w > 0 && a.w <= 64 && (a.k1&b.k0|a.k0&b.k1) != 0 {
+		return tb.ff
+	}
 	// eq(ite(c,k1,k2), k3) with constants
 	if b.IsConst() && a.op == OpIte && a.args[1].IsConst() && a.args[2].IsConst() {
 		e1 := tb.Eq(a.args[1], b)
@@ -350,7 +441,11 @@ func (tb *TB) Ite(c, a, b *Term) *Term {
 	if c.op == OpNot {
 		return tb.Ite(c.args[0], b, a)
 	}
-	return tb.mk(&Term{op: OpIte, w: a.w, args: []*Term{c, a, b}})
+	r := tb.mk(&Term{op: OpIte, w: a.w, args: []*Term{c, a, b}})
+	if k, ok := tb.allKnown(r); ok {
+		return k
+	}
+	return r
 }
 
 // ---- bit-vector arithmetic ----
@@ -470,7 +565,11 @@ func (tb *TB) bin(op Op, a, b *Term) *Term {
 			return a
 		}
 	}
-	return tb.mk(&Term{op: op, w: w, args: []*Term{a, b}})
+	r := tb.mk(&Term{op: op, w: w, args: []*Term{a, b}})
+	if c, ok := tb.allKnown(r); ok {
+		return c
+	}
+	return r
 }
 
 func fold64(op Op, w int, x, y uint64) (uint64, bool) {
@@ -640,6 +739,36 @@ func (tb *TB) cmp(op Op, a, b *Term) *Term {
 	if op == OpULt && b.IsConst() && b.big == nil && b.v == 0 {
 		return tb.ff
 	}
+	if a.w <= 64 && (op == OpULt || op == OpULe) {
+		m := mask(a.w)
+		amin, amax := a.k1, ^a.k0&m
+		bmin, bmax := b.k1, ^b.k0&m
+		if op == OpULt {
+			if amax < bmin {
+				return tb.tt
+			}
+			if amin >= bmax {
+				return tb.ff
+			}
+		} else {
+			if amax <= bmin {
+				return tb.tt
+			}
+			if amin > bmax {
+				return tb.ff
+			}
+		}
+	}
+	if a.w <= 64 && (op == OpSLt || op == OpSLe) {
+		// both operands with known-zero sign bit: unsigned comparison applies
+		sb := uint64(1) << uint(a.w-1)
+		if a.k0&sb != 0 && b.k0&sb != 0 {
+			if op == OpSLt {
+				return tb.cmp(OpULt, a, b)
+			}
+			return tb.cmp(OpULe, a, b)
+		}
+	}
 	if op == OpULe && a.IsConst() && a.big == nil && a.v == 0 {
 		return tb.tt
 	}
@@ -693,7 +822,11 @@ func (tb *TB) Extract(a *Term, hi, lo int) *Term {
 			return tb.bin(a.op, tb.Extract(a.args[0], hi, lo), tb.Extract(a.args[1], hi, lo))
 		}
 	}
-	return tb.mk(&Term{op: OpExtract, w: w, v: uint64(hi), p: lo, args: []*Term{a}})
+	r := tb.mk(&Term{op: OpExtract, w: w, v: uint64(hi), p: lo, args: []*Term{a}})
+	if c, ok := tb.allKnown(r); ok {
+		return c
+	}
+	return r
 }
 
 func (tb *TB) ZExt(a *Term, w int) *Term {
